@@ -70,6 +70,29 @@ func (c config) editorconfig() string {
 	return b.String()
 }
 
+// section writes every knob explicitly (true and false), so that a later section overrides an earlier one
+func (c config) section(header string) string {
+	var b strings.Builder
+	fmt.Fprintf(&b, "\n[%s]\n", header)
+	if c.Indent > 0 {
+		fmt.Fprintf(&b, "indent_style = space\nindent_size = %d\n", c.Indent)
+	} else {
+		b.WriteString("indent_style = tab\n")
+	}
+	kv := func(k string, v bool) { fmt.Fprintf(&b, "%s = %v\n", k, v) }
+	kv("binary_next_line", c.Bn)
+	kv("switch_case_indent", c.Ci)
+	kv("space_redirects", c.Sr)
+	kv("function_next_line", c.Fn)
+	kv("keep_padding", c.Kp)
+	kv("simplify", c.S)
+	kv("minify", c.Mn)
+	if c.Ln != "" {
+		fmt.Fprintf(&b, "shell_variant = %s\n", c.Ln)
+	}
+	return b.String()
+}
+
 func langOf(name string) (syntax.LangVariant, bool) {
 	switch name {
 	case "bash":
@@ -425,6 +448,7 @@ type row struct {
 	Via     string    `json:"via"` // flags | editorconfig | args
 	Flags   []string  `json:"flags"`
 	Ln      string    `json:"ln"` // language forced by -ln or by shell_variant
+	PerFileLn bool    `json:"per_file_ln"` // some file name has its own shell_variant section
 	Files   []fileRow `json:"files"`
 	LOut    []string  `json:"l_out"`
 	LRc     int       `json:"l_rc"`
@@ -479,7 +503,8 @@ func eqStrs(a, b []string) bool {
 }
 
 // checkOne runs every mode on one tree with one realisation of a config.
-func checkOne(scratch string, ti int, fs []gfile, c config, via string) row {
+// over: per-basename option sets (via "sections": an EditorConfig section per file name after the [*] section)
+func checkOne(scratch string, ti int, fs []gfile, c config, via string, over map[string]config) row {
 	root := filepath.Join(scratch, "t")
 	var flags []string
 	ec := ""
@@ -488,9 +513,30 @@ func checkOne(scratch string, ti int, fs []gfile, c config, via string) row {
 		flags = c.flags()
 	case "editorconfig":
 		ec = c.editorconfig()
+	case "sections":
+		ec = c.editorconfig()
+		var names []string
+		for n := range over {
+			names = append(names, n)
+		}
+		sort.Strings(names)
+		for _, n := range names {
+			ec += over[n].section(n)
+		}
+	}
+	cfgOf := func(rel string) config {
+		if o, ok := over[filepath.Base(rel)]; ok && via == "sections" {
+			return o
+		}
+		return c
 	}
 	writeTree(root, fs, ec)
 	rw := row{Tree: ti, Via: via, Flags: flags, Ln: c.Ln}
+	for _, o := range over {
+		if o.Ln != c.Ln {
+			rw.PerFileLn = true
+		}
+	}
 	fail := func(clause, detail string) {
 		rw.Fails = append(rw.Fails, clause)
 		if rw.Detail == "" {
@@ -512,8 +558,9 @@ func checkOne(scratch string, ti int, fs []gfile, c config, via string) row {
 			continue
 		}
 		targets = append(targets, f)
-		l := specLang(c, f.Rel, f.Src)
-		out, perr := libFormat(c, l, f.Src, f.Rel)
+		fc := cfgOf(f.Rel)
+		l := specLang(fc, f.Rel, f.Src)
+		out, perr := libFormat(fc, l, f.Src, f.Rel)
 		fr := fileRow{Rel: f.Rel, Src: hx.Hex(string(f.Src)), Walked: true, Lang: l.String(), Idem: true, LangStable: true}
 		fr.Cut32 = specShebang(f.Src[:min(32, len(f.Src))]) != specShebang(f.Src)
 		if perr != "" {
@@ -526,11 +573,11 @@ func checkOne(scratch string, ti int, fs []gfile, c config, via string) row {
 			if !bytes.Equal(out, f.Src) {
 				wantL = append(wantL, f.Rel)
 			}
-			out2, perr2 := libFormat(c, l, out, f.Rel)
+			out2, perr2 := libFormat(fc, l, out, f.Rel)
 			if perr2 != "" || !bytes.Equal(out2, out) {
 				fr.Idem = false
 				nonIdem = append(nonIdem, f.Rel)
-			} else if specLang(c, f.Rel, out) != l {
+			} else if specLang(fc, f.Rel, out) != l {
 				fr.LangStable = false
 				langFlip = append(langFlip, f.Rel)
 			}
@@ -584,7 +631,14 @@ func checkOne(scratch string, ti int, fs []gfile, c config, via string) row {
 		}
 	}
 	// ---- -l=0
-	_, l0, _ := runShfmt(root, nil, args("-l=0")...)
+	rc0, l0, _ := runShfmt(root, nil, args("-l=0")...)
+	if rc0 != wantRc {
+		fail("list0_exit_iff_listed", fmt.Sprintf("rc %d want %d listed %d errors %d", rc0, wantRc, len(wantL), len(errFiles)))
+	}
+	rcl, ll0, _ := runShfmt(root, nil, args("--list=0")...)
+	if rcl != wantRc || !bytes.Equal(ll0, l0) {
+		fail("list0_long_flag", fmt.Sprintf("rc %d want %d", rcl, wantRc))
+	}
 	var got0 []string
 	for _, p := range strings.Split(string(l0), "\x00") {
 		if p != "" {
@@ -770,13 +824,45 @@ func main() {
 				if via == "args" && i%3 != 0 {
 					continue
 				}
-				hx.Emit(checkOne(scratch, i, fs, c, via))
+				hx.Emit(checkOne(scratch, i, fs, c, via, nil))
 			}
+			// per-file EditorConfig sections: every file name gets its own option set (the tree's set with some
+			// knobs flipped); one invocation over the directory must format each file with ITS options, exactly
+			// as formatting it alone / through stdin --filename does
+			base := c
+			base.Ln = ""
+			over := map[string]config{}
+			for _, f := range fs {
+				o := base
+				flip := func(b *bool) {
+					if r.IntN(3) == 0 {
+						*b = !*b
+					}
+				}
+				flip(&o.Bn)
+				flip(&o.Ci)
+				flip(&o.Sr)
+				flip(&o.Fn)
+				flip(&o.Kp)
+				flip(&o.S)
+				if r.IntN(6) == 0 {
+					o.Mn = !o.Mn
+				}
+				if r.IntN(3) == 0 {
+					o.Indent = uint(hx.Pick(r, []int{0, 2, 4}))
+				}
+				over[filepath.Base(f.Rel)] = o
+			}
+			hx.Emit(checkOne(scratch, i, fs, base, "sections", over))
 		}
 	case "pinned":
 		// witnesses of known findings and edge cases, always re-run
 		for i, p := range pinned {
-			rw := checkOne(scratch, 1000+i, p.fs, p.c, "flags")
+			via := "flags"
+			if p.over != nil {
+				via = "sections"
+			}
+			rw := checkOne(scratch, 1000+i, p.fs, p.c, via, p.over)
 			if p.class != "" && len(rw.Fails) > 0 {
 				// attributed to the listed finding only if the class predicate holds on the witness file and
 				// the failure signature (set of failing clauses) is the recorded one
@@ -805,22 +891,35 @@ func main() {
 	hx.Flush()
 }
 
+var leakBody = "if true; then\n\techo $(($a + 1))   x\nfi\n[[ \"$a\" == b ]] &&\n\tfoo >f\ncase $x in\na) b ;;\nesac\nf() {\n\tg\n}\n"
+var leakFiles = []gfile{{"a_first.sh", []byte(leakBody), true}, {"b_second.sh", []byte(leakBody), true}, {"sub/c_third.sh", []byte(leakBody), true}}
+
 var pinned = []struct {
 	fs    []gfile
 	c     config
 	class string
 	sig   []string
+	over  map[string]config
 }{
 	// C02 finding: the backquoted here-document is not formatted idempotently
 	{[]gfile{{"h.sh", []byte("`foo <<'EOF'\nbar\nEOF`\n"), true}, {"ok.sh", []byte("echo   a\n"), true}}, config{},
-		"c02_nonidempotent_input", []string{"write_then_list_empty"}},
+		"c02_nonidempotent_input", []string{"write_then_list_empty"}, nil},
 	// file mode looks for the shebang in the first 32 bytes only, stdin mode in the whole source
 	{[]gfile{{"x.sh", []byte("#!" + strings.Repeat(" ", 23) + "/bin/shared-thing\na=(1 2)\n"), true}}, config{},
-		"shebang_cut_at_32_bytes", []string{"diff_exit", "exit_iff_listed", "plain_same", "write_exit", "write_then_list_exit"}},
+		"shebang_cut_at_32_bytes", []string{"diff_exit", "exit_iff_listed", "list0_exit_iff_listed", "list0_long_flag", "plain_same", "write_exit", "write_then_list_exit"}, nil},
 	// the formatted bytes start with a shebang that the source (leading blanks) did not have: posix instead of bash
 	{[]gfile{{"y.sh", []byte("  #!/bin/sh\n[[ a<b ]]\n"), true}}, config{},
-		"language_redetected_after_format", []string{"write_then_list_empty"}},
+		"language_redetected_after_format", []string{"write_then_list_empty"}, nil},
 	// edge cases that must hold
-	{[]gfile{{"e.sh", []byte(""), true}, {"nl.sh", []byte("echo a"), true}, {"crlf.sh", []byte("echo a\r\n"), true}}, config{}, "", nil},
-	{[]gfile{{"only_comment.sh", []byte("# x\n"), true}, {"sub/.hidden.sh", []byte("echo   a\n"), false}, {"sub/.git/z.sh", []byte("echo  a\n"), false}}, config{Indent: 2}, "", nil},
+	{[]gfile{{"e.sh", []byte(""), true}, {"nl.sh", []byte("echo a"), true}, {"crlf.sh", []byte("echo a\r\n"), true}}, config{}, "", nil, nil},
+	// per-file sections, one knob at a time: the FIRST file walked has the knob, the SECOND (sensitive to it) has not,
+	// and the other way round: options must not leak from one file to the next within an invocation
+	{leakFiles, config{}, "", nil, map[string]config{"a_first.sh": {S: true}}},
+	{leakFiles, config{}, "", nil, map[string]config{"a_first.sh": {Mn: true}}},
+	{leakFiles, config{}, "", nil, map[string]config{"a_first.sh": {Indent: 4}}},
+	{leakFiles, config{}, "", nil, map[string]config{"a_first.sh": {Bn: true, Ci: true, Sr: true, Fn: true, Kp: true}}},
+	{leakFiles, config{}, "", nil, map[string]config{"a_first.sh": {Ln: "posix"}}},
+	{leakFiles, config{S: true, Indent: 2, Bn: true, Ci: true, Sr: true, Fn: true}, "", nil, map[string]config{"a_first.sh": {}}},
+	{leakFiles, config{}, "", nil, map[string]config{"b_second.sh": {S: true, Indent: 2, Ci: true}}},
+	{[]gfile{{"only_comment.sh", []byte("# x\n"), true}, {"sub/.hidden.sh", []byte("echo   a\n"), false}, {"sub/.git/z.sh", []byte("echo  a\n"), false}}, config{Indent: 2}, "", nil, nil},
 }
